@@ -47,22 +47,34 @@ SPEC = {
              "fibers of the same geometry, compressed and 'U'-format ranks, plus a flattened (tuple-"
              "coordinate, list-valued rank id) view; (iii) `img`: TensorImage in styles tree / uncompressed / "
              "tree+uncompressed rendered twice on compressed-format tensors of rank 1-3 with missing, stored-empty "
-             "and all-default rows inside the upper rank's shape (and the root fiber on its own).  "
+             "and all-default rows inside the upper rank's shape (and the root fiber on its own), then with two "
+             "`highlights` configurations (1-4 workers named by strings, integers or tuples of integers - also names "
+             "whose printed forms coincide -, 0-3 points each: stored leaves, stored sub-tensors, absent points, '?' "
+             "wildcards; argument forms dict / dict of single points / list / single point) each rendered twice "
+             "with equal, freshly built arguments, and the first one once more after the others.  "
              "Non-trivial = the operand stores at least one element and, for `val`, the operation returned and at "
              "least one follow-up mutation was applied on each side; for `ro` at least 40 operations ran; for `img` "
-             "all three styles rendered.  distinct = distinct case."),
+             "all three styles and every highlight configuration rendered.  distinct = distinct case."),
     "shards": {"quick": 16, "thorough": 16},
     "min_counts": {"quick": {"evaluations": 3000, "oracle_evals": 60000, "val_ops_returned": 2500,
                              "alias_checks": 2500, "followup_result_mutations": 5000,
                              "followup_operand_mutations": 5000, "ro_ops": 40000, "img_renders": 400,
-                             "img_pairs_compared": 150, "ro:Fiber.iterShape[U]": 40,
+                             "img_pairs_compared": 150, "img_hl_renders": 400, "img_hl_pairs_compared": 150,
+                             "img_hl_interleaved_compared": 50, "img_hl_visible": 60,
+                             "img_hl_workers[str]": 40, "img_hl_workers[int]": 40, "img_hl_workers[tuple]": 40,
+                             "img_hl_points[stored]": 80, "img_hl_points[partial]": 10,
+                             "img_hl_points[absent]": 25, "img_hl_points[wildcard]": 10,
+                             "ro:Fiber.iterShape[U]": 40,
                              "ro:Fiber.coiterShape[U]": 40, "ro:Format.getFiber[absent]": 100,
                              "ro:Compute.numSwaps": 80, "ro:Fiber.__or__": 300, "ro:Tensor.dump": 100,
                              "val:Tensor.flattenRanks[flattened operand]": 15,
                              "val:Tensor.unflattenRanks[flattened operand]": 30, "val:deepcopy(Tensor)": 20,
                              "val:Tensor.swizzleRanks": 30, "val:Fiber:fiber+fiber": 40},
                    "thorough": {"evaluations": 20000, "oracle_evals": 600000, "val_ops_returned": 15000,
-                                "ro_ops": 400000, "img_renders": 3000}},
+                                "ro_ops": 400000, "img_renders": 3000, "img_hl_renders": 5000,
+                                "img_hl_pairs_compared": 2000, "img_hl_visible": 800,
+                                "img_hl_workers[str]": 500, "img_hl_workers[int]": 500,
+                                "img_hl_workers[tuple]": 500}},
     "budget_s": {"quick": 40, "thorough": 520},
     "assumptions": [
         "ordered/unique fibers; integer coordinates (tuple coordinates only as produced by flattenRanks)",
@@ -83,7 +95,10 @@ SPEC = {
         "tensor only without authoritative shapes, and Tensor.unflattenRanks only when the flattened rank stores "
         "an element (nested / estimated-as-0 shape bookkeeping: C14's); scalar + and * at leaf-level "
         "fibers only; fiber + fiber on free fibers only up to depth 2 and without stored empty sub-fibers (a free "
-        "fiber infers interior defaults one level deep); images of compressed-format tensors only; dense iterators, "
+        "fiber infers interior defaults one level deep); images of compressed-format tensors only; highlights: worker names are strings, integers or tuples of "
+        "integers (no bools), points are tuples of 1..depth integer coordinates or '?' wildcards ('?' only in the "
+        "dict-of-lists and list forms: the single-point forms misread a leading character, a documented limitation); "
+        "the colour a worker gets is not judged, only that equal arguments give equal images; dense iterators, "
         "uncompress, splits and Format only on integer-coordinate (unflattened) trees; uncompress only on trees "
         "without stored empty fibers (all-default nests raise in _fillempty: C13's); `a - b` only with a "
         "compressed a; numSwaps: depth <= ranks-2, radix int >= 2, latency int ('N' only on compressed ranks)",
@@ -642,11 +657,11 @@ def generate(rng, tier, shard, nshards, mon):
         idx += 1
         if cfg["own"] == "tensor" and cfg["depth"] <= 3 and "U" not in cfg["fmts"]:
             if idx % nshards == shard:
-                yield {"kind": "img", "cfg": cfg, "sys": True}
+                yield {"kind": "img", "cfg": cfg, "sys": True, "hl": _img_highlights(f"sys:{ci}", cfg, 2, False)}
             idx += 1
     for k, cfg in enumerate(_img_fixed()):
         if idx % nshards == shard:
-            yield {"kind": "img", "cfg": cfg, "sys": True}
+            yield {"kind": "img", "cfg": cfg, "sys": True, "hl": _img_highlights(f"fixed:{k}", cfg, 2, True)}
         idx += 1
     mon.exhaustive["fixed-trees-ro+img"] = True
     # (iii) random
@@ -669,7 +684,8 @@ def generate(rng, tier, shard, nshards, mon):
         elif kind == "ro":
             yield _ro_case(rng, rand_cfg(rng))
         else:
-            yield {"kind": "img", "cfg": _img_cfg(rng)}
+            cfg = _img_cfg(rng)
+            yield {"kind": "img", "cfg": cfg, "hl": _img_highlights(f"rand:{i}", cfg, 2, False)}
 
 
 def _ro_case(rng, cfg):
@@ -729,6 +745,104 @@ def _img_cfg(rng):
             spec.append([1, sub])
         cfg["spec"] = sorted(spec, key=lambda e: e[0])
     return cfg
+
+
+# highlights: worker -> points.  Worker names ("spacestamps": any hashable) are drawn from strings, integers and
+# tuples of integers, deliberately including names whose printed forms coincide ("0" / 0, "(0, 1)" / (0, 1)).
+HL_WORKERS = {"str": ["PE", "PE0", "PE1", "w", "0", "(0, 1)"],
+              "int": [0, 1, 2, 3, 7, 12],
+              "tuple": [[0], [1], [0, 0], [0, 1], [1, 0], [2, 3, 1]]}
+HL_PROFILES = ["str", "int", "tuple", "mixed"]
+HL_FORMS = ["dict"] * 7 + ["dict1", "list", "point"]
+
+
+def _spec_nodes(spec):
+    """-> (paths of stored leaves, paths of stored sub-fibers) of a tree spec"""
+    leaves, inner = [], []
+
+    def walk(s, path):
+        for c, sub in s:
+            if isinstance(sub, list):
+                inner.append(path + [c])
+                walk(sub, path + [c])
+            else:
+                leaves.append(path + [c])
+    walk(spec, [])
+    return leaves, inner
+
+
+def _point_class(spec, point):
+    """stored (a stored leaf) / partial (a stored sub-fiber: whole sub-tensor) / absent / wildcard - from the spec"""
+    if "?" in point:
+        return "wildcard"
+    s = spec
+    for k, c in enumerate(point):
+        if not isinstance(s, list):
+            return "absent"
+        nxt = [sub for cc, sub in s if cc == c]
+        if not nxt:
+            return "absent"
+        s = nxt[0]
+    return "partial" if isinstance(s, list) else "stored"
+
+
+def _img_highlights(seed, cfg, n, all_styles):
+    """n highlight configurations for one image case (own generator: does not disturb the case stream).
+    A configuration = form of the `highlights` argument, the styles it is rendered in, [[worker, [point..]]..]."""
+    hrng = random.Random(f"hl:{seed}:{cfg['ext']}:{cfg['spec']}")
+    leaves, inner = _spec_nodes(cfg["spec"])
+    D = cfg["depth"]
+    out = []
+    profiles = hrng.sample(HL_PROFILES, len(HL_PROFILES))
+    for k in range(n):
+        prof = profiles[k % len(profiles)]
+        form = hrng.choice(HL_FORMS)
+        nw = hrng.choice([1, 1, 2, 2, 3, 4]) if form in ("dict", "dict1") else 1
+        if form in ("list", "point"):
+            names = ["PE"]                        # the documented implicit worker of the worker-less forms
+        elif prof == "mixed":
+            pool = [w for v in HL_WORKERS.values() for w in v]
+            names = hrng.sample(pool, nw)
+        else:
+            names = hrng.sample(HL_WORKERS[prof], nw)
+        workers = []
+        for w in names:
+            npts = 1 if form in ("dict1", "point") else hrng.choice([0, 1, 1, 2, 2, 3])
+            pts = []
+            for _ in range(npts):
+                r = hrng.random()
+                if leaves and r < 0.5:
+                    pt = list(hrng.choice(leaves))
+                elif (inner or leaves) and r < 0.65:
+                    pt = list(hrng.choice(inner or leaves))
+                    pt = pt[:hrng.randint(1, len(pt))]
+                elif leaves and r < 0.8 and form in ("dict", "list"):
+                    pt = list(hrng.choice(leaves))
+                    pt[hrng.randrange(len(pt))] = "?"
+                else:
+                    pt = [hrng.randint(0, e + 2) for e in cfg["ext"][:hrng.randint(1, D)]]
+                pts.append(pt)
+            workers.append([w, pts])
+        out.append({"form": form, "styles": list(STYLES) if all_styles else [hrng.choice(STYLES + STYLES[:2])], "w": workers})
+    return out
+
+
+def _hl_arg(conf):
+    """a fresh `highlights` argument (equal at every call) in the configuration's form"""
+    def name(w):
+        return tuple(w) if isinstance(w, list) else w
+    ws = conf["w"]
+    if conf["form"] == "dict":
+        return {name(w): [tuple(p) for p in pts] for w, pts in ws}
+    if conf["form"] == "dict1":
+        return {name(w): tuple(pts[0]) for w, pts in ws}
+    if conf["form"] == "list":
+        return [tuple(p) for p in ws[0][1]]
+    return tuple(ws[0][1][0])
+
+
+def _worker_kind(w):
+    return "tuple" if isinstance(w, (list, tuple)) else "str" if isinstance(w, str) else "int"
 
 
 # ------------------------------------------------------------------------------------------
@@ -1396,18 +1510,23 @@ def _run_ro(case, mon):
 # ------------------------------------------------------------------------------------------
 # image rendering
 # ------------------------------------------------------------------------------------------
-def _run_img(case, mon):
+def _render(T, style, conf=None):
     from fibertree.graphics.tensor_image import TensorImage
+    im = (TensorImage(T, style=style) if conf is None else TensorImage(T, style=style, highlights=_hl_arg(conf))).im
+    return (im.mode, im.size, im.tobytes())
+
+
+def _run_img(case, mon):
     cfg = case["cfg"]
     T, F = build(cfg)
     before = xsnap(T)
     done = 0
+    plain = {}
     for style in STYLES:
         ims = []
         for k in range(2):
             try:
-                im = TensorImage(T, style=style).im
-                ims.append((im.mode, im.size, im.tobytes()))
+                ims.append(_render(T, style))
                 mon.count("img_renders")
             except BaseException as e:      # noqa
                 mon.violation(f"img:{style}:raised:{type(e).__name__}",
@@ -1421,6 +1540,7 @@ def _run_img(case, mon):
                 before = now
         if len(ims) == 2:
             done += 1
+            plain[style] = ims[0]
             mon.count("img_pairs_compared")
             mon.check(ims[0] == ims[1], f"img:{style}:nondeterministic",
                       f"two renderings (style {style}) of the same tensor differ; tree={cfg['spec']} shape={cfg.get('shape')}")
@@ -1428,8 +1548,8 @@ def _run_img(case, mon):
     if case.get("fiber_too", len(cfg["spec"]) % 4 == 0):
         st = STYLES[len(cfg["spec"]) % 3]
         try:
-            a = TensorImage(F, style=st).im.tobytes()
-            b = TensorImage(F, style=st).im.tobytes()
+            a = _render(F, st)
+            b = _render(F, st)
             mon.count("img_renders", 2)
             mon.check(a == b, f"img:{st}:nondeterministic:fiber", "two renderings of the same fiber differ")
         except BaseException as e:      # noqa
@@ -1437,9 +1557,70 @@ def _run_img(case, mon):
         now = xsnap(T)
         mon.check(now == before, f"img:{st}:modified:{diffkind(before, now) if now != before else ''}:fiber",
                   "rendering the root fiber changed the tensor")
-    if done == 3 and leaf_paths(F):
+        before = now
+    # the same tensor rendered with highlights (worker -> points): twice with equal arguments, back to back, and
+    # once more after the other configurations have been rendered
+    confs = case.get("hl") or []
+    first = None
+    hl_done = 0
+    for conf in confs:
+        what = f"form={conf['form']} highlights={conf['w']}"
+        for w, pts in conf["w"]:
+            mon.count(f"img_hl_workers[{_worker_kind(w)}]")
+            for pt in pts:
+                mon.count(f"img_hl_points[{_point_class(cfg['spec'], pt)}]")
+        mon.count(f"img_hl_form[{conf['form']}]")
+        ok = True
+        for style in conf.get("styles") or STYLES:
+            ims = []
+            for k in range(2):
+                try:
+                    ims.append(_render(T, style, conf))
+                    mon.count("img_hl_renders")
+                except BaseException as e:      # noqa
+                    mon.violation(f"img:{style}:raised:{type(e).__name__}:highlighted",
+                                  f"TensorImage(style={style}, {what}) raised {type(e).__name__}: {e} on tree={cfg['spec']} "
+                                  f"shape={cfg.get('shape')}")
+                now = xsnap(T)
+                same = now == before
+                mon.check(same, f"img:{style}:modified:{diffkind(before, now) if not same else ''}:highlighted",
+                          f"rendering style {style} with {what} changed the tensor "
+                          f"({diffkind(before, now) if not same else ''}); tree={cfg['spec']} shape={cfg.get('shape')}")
+                if not same:
+                    before = now
+            if len(ims) < 2:
+                ok = False
+                continue
+            mon.count("img_hl_pairs_compared")
+            mon.check(ims[0] == ims[1], f"img:{style}:nondeterministic:highlighted",
+                      f"two renderings (style {style}, {what}) of the same tensor with the same highlights differ; "
+                      f"tree={cfg['spec']} shape={cfg.get('shape')}")
+            if style in plain and ims[0] != plain[style]:
+                mon.count("img_hl_visible")             # the highlights coloured something
+            if first is None:
+                first = (conf, style, ims[0], what)
+        hl_done += ok
+    if first is not None and len(confs) > 1:
+        conf, style, im0, what = first
+        try:
+            again = _render(T, style, conf)
+            mon.count("img_hl_renders")
+            mon.count("img_hl_interleaved_compared")
+            mon.check(again == im0, f"img:{style}:nondeterministic:highlighted:interleaved",
+                      f"rendering (style {style}, {what}) again after renderings with other highlights gives a different "
+                      f"image; tree={cfg['spec']} shape={cfg.get('shape')}")
+        except BaseException as e:      # noqa
+            mon.violation(f"img:{style}:raised:{type(e).__name__}:highlighted",
+                          f"TensorImage(style={style}, {what}) raised {type(e).__name__}: {e}")
+        now = xsnap(T)
+        mon.check(now == before, f"img:{style}:modified:{diffkind(before, now) if now != before else ''}:highlighted",
+                  f"rendering style {style} with {what} changed the tensor")
+    if done == 3 and hl_done == len(confs) and leaf_paths(F):
         mon.nontrivial()
     mon.state(("img", cfg["depth"], cfg["flavour"], bool(cfg.get("shape")), has_empty_fiber(F)))
+    for conf in confs:
+        mon.state(("img-hl", cfg["depth"], conf["form"], sorted({_worker_kind(w) for w, _ in conf["w"]}),
+                   sorted({_point_class(cfg["spec"], pt) for _, pts in conf["w"] for pt in pts})))
 
 
 def run_case(case, mon):
